@@ -29,7 +29,13 @@ pub fn reconcile_aliases(crate_parsed_data: &mut BTreeMap<CrateName, ParsedData>
         for s in &mut parsed_data.structs {
             debug!("struct: {}", s.id.original);
             for f in &mut s.fields {
-                check_type(crate_name, &serde_renamed, &import_types, &mut f.ty);
+                check_type(
+                    crate_name,
+                    &serde_renamed,
+                    &import_types,
+                    &s.generic_types,
+                    &mut f.ty,
+                );
             }
         }
 
@@ -41,12 +47,14 @@ pub fn reconcile_aliases(crate_parsed_data: &mut BTreeMap<CrateName, ParsedData>
                     crate_name,
                     &serde_renamed,
                     &import_types,
+                    &shared.generic_types,
                     &mut shared.variants,
                 ),
                 RustEnum::Algebraic { shared, .. } => check_variant(
                     crate_name,
                     &serde_renamed,
                     &import_types,
+                    &shared.generic_types,
                     &mut shared.variants,
                 ),
             }
@@ -54,7 +62,13 @@ pub fn reconcile_aliases(crate_parsed_data: &mut BTreeMap<CrateName, ParsedData>
 
         // update references to renamed ids in aliases.
         for a in &mut parsed_data.aliases {
-            check_type(crate_name, &serde_renamed, &import_types, &mut a.r#type);
+            check_type(
+                crate_name,
+                &serde_renamed,
+                &import_types,
+                &a.generic_types,
+                &mut a.r#type,
+            );
         }
 
         // Apply sorting to types for deterministic output.
@@ -121,17 +135,24 @@ fn check_variant(
     crate_name: &CrateName,
     serde_renamed: &RenamedTypes,
     imported_types: &HashSet<ImportedType>,
+    generic_types: &[String],
     variants: &mut Vec<RustEnumVariant>,
 ) {
     for v in variants {
         match v {
             RustEnumVariant::Unit(_) => (),
             RustEnumVariant::Tuple { ty, .. } => {
-                check_type(crate_name, serde_renamed, imported_types, ty);
+                check_type(crate_name, serde_renamed, imported_types, generic_types, ty);
             }
             RustEnumVariant::AnonymousStruct { fields, .. } => {
                 for f in fields {
-                    check_type(crate_name, serde_renamed, imported_types, &mut f.ty);
+                    check_type(
+                        crate_name,
+                        serde_renamed,
+                        imported_types,
+                        generic_types,
+                        &mut f.ty,
+                    );
                 }
             }
         }
@@ -142,6 +163,7 @@ fn check_type(
     crate_name: &CrateName,
     serde_renamed: &RenamedTypes,
     import_types: &HashSet<ImportedType>,
+    generic_types: &[String],
     ty: &mut RustType,
 ) {
     debug!("checking type: {ty:?}");
@@ -152,28 +174,30 @@ fn check_type(
                 *id = renamed.to_owned();
             }
             for ty in parameters {
-                check_type(crate_name, serde_renamed, import_types, ty);
+                check_type(crate_name, serde_renamed, import_types, generic_types, ty);
             }
         }
         RustType::Special(s) => match s {
             SpecialRustType::Vec(ty) => {
-                check_type(crate_name, serde_renamed, import_types, ty);
+                check_type(crate_name, serde_renamed, import_types, generic_types, ty);
             }
             SpecialRustType::Array(ty, _) => {
-                check_type(crate_name, serde_renamed, import_types, ty);
+                check_type(crate_name, serde_renamed, import_types, generic_types, ty);
             }
             SpecialRustType::Slice(ty) => {
-                check_type(crate_name, serde_renamed, import_types, ty);
+                check_type(crate_name, serde_renamed, import_types, generic_types, ty);
             }
             SpecialRustType::HashMap(ty1, ty2) => {
-                check_type(crate_name, serde_renamed, import_types, ty1);
-                check_type(crate_name, serde_renamed, import_types, ty2);
+                check_type(crate_name, serde_renamed, import_types, generic_types, ty1);
+                check_type(crate_name, serde_renamed, import_types, generic_types, ty2);
             }
             SpecialRustType::Option(ty) => {
-                check_type(crate_name, serde_renamed, import_types, ty);
+                check_type(crate_name, serde_renamed, import_types, generic_types, ty);
             }
             _ => (),
         },
+        // A generic parameter of the enclosing item shadows any type of the same name.
+        RustType::Simple { id } if generic_types.contains(id) => (),
         RustType::Simple { id } => {
             debug!("{crate_name} looking up original name {id}");
 
